@@ -4,12 +4,14 @@ _TB = [
     "Lean model CwMt/Model/Engine.lean is a hand transcription of app.rs / wasm.rs / bank.rs (value semantics; a state exists only on Ok), "
     "validated only by the generator-bounded correspondence with the real App driven through scripted contracts",
     "contracts and non-bank/non-wasm modules are arbitrary functions in the theorems; the scripted contract interpreter exists twice (Rust, Lean) and is trusted to be the same program",
-    "SHA-256 / bech32 (address and checksum values) are not modelled: real values are declared to the model by `bind` lines produced by the real code",
+    "SHA-256 and bech32 are inside the model (CwMt/Model/Sha256.lean, Bech32.lean, Address.lean): the driver recomputes every `bind*` declaration of a case "
+    "(addr_make, classic and salted contract addresses, default checksums) and answers with its own value, so the values the implementation declares are checked, "
+    "not trusted; only the wasm-legacy slice (custom Api and address generator) takes its declarations as given",
     "JSON (de)serialisation of stored records is not modelled (the harness decodes the raw store with serde and requires every raw key to fall in a known namespace)",
     "value semantics for storage is justified by C06 (overlay = ordered map) and by the correspondence; Rust's borrow rules are assumed",
 ]
 _NOTE = ("Trusted: Lean kernel + propext/Classical.choice/Quot.sound; the hand-written engine model and the scripted-contract twin, tied to /repo only by "
-         "differential testing (generator-bounded); addresses/checksums declared by the implementation; JSON and SHA-256 not modelled; fuel-indexed "
+         "differential testing (generator-bounded); addresses/checksums recomputed by the model (SHA-256, bech32 modelled); JSON not modelled; fuel-indexed "
          "recursion with out-of-fuel excluded by hypothesis (fuel irrelevance is proved).")
 
 
